@@ -67,7 +67,8 @@ pub struct Feed {
     /// aircraft index
     pub ac: u8,
     pub at_ns: u64,
-    /// 0 identification, 1 airborne position, 2 velocity, 3 DF4
+    /// 0 identification, 1 airborne position, 2 velocity, 3 DF4, 4 operational
+    /// status and 5 target state with arbitrary contents
     pub kind: u8,
 }
 
@@ -281,7 +282,7 @@ impl Scenario for C17 {
             let mut t = rng.below(span_ns / 2 + 1);
             for _ in 0..rng.usize(1, 3) {
                 for _ in 0..rng.usize(if n_ac > 6 { 2 } else { 1 }, 6) {
-                    feeds.push(Feed { ac, at_ns: t, kind: rng.below(4) as u8 });
+                    feeds.push(Feed { ac, at_ns: t, kind: rng.below(6) as u8 });
                     t += rng.range(1_000_000, 2_000_000_000);
                 }
                 t += rng.range(1, 70) * 1_000_000_000;
@@ -993,6 +994,15 @@ pub fn execute(plan: &C17Plan) -> Outcome<C17Plan> {
                     0 => world::df17_identification(icao, 4, 3, &format!("SIM{:04}", ai)),
                     1 => world::df17_airborne_position(icao, 11, if n_ac > 6 { 34000 + 25 * ((ai as i32 * 37) % 61) } else { 10000 + 1000 * ai as i32 }, 45.0 + (ai % 40) as f64, 5.0, false).0,
                     2 => world::df17_velocity_gs(icao, 100 + ai as i32, 200, 640),
+                    // operational status / target state with arbitrary contents
+                    // (reserved NACp values, versions, ... as mis-configured
+                    // transponders send them)
+                    4 | 5 => {
+                        let mut h = Fnv::new();
+                        h.u64(f.at_ns ^ ((ai as u64) << 40));
+                        let tc: u64 = if f.kind == 4 { 31 } else { 29 };
+                        world::df17(icao, 5, (tc << 51) | (h.0 & ((1 << 51) - 1)))
+                    }
                     _ => world::df4(icao, 0, if n_ac > 6 { 34000 + 25 * ((ai as i32 * 37) % 61) } else { 12000 + 500 * ai as i32 }),
                 };
                 let Ok(message) = Message::try_from(frame.as_slice()) else { continue };
